@@ -49,6 +49,17 @@ let run (st : stream) (b : Buffer.t) : unit =
   | Ok nw ->
     let pr fmt = Printf.bprintf b fmt in
     pr "load OK\n";
+    (* the modelled slot distribution (SlotDist.v), compared with the SLOT lines of the hook by the comparator *)
+    (match distribute nw with
+     | Ok a -> List.iter (fun (ty, l) -> List.iter (fun (m, c) -> pr "MSLOT %s %s %s\n" (zs ty) (nid m) (zs c)) l) a;
+               pr "MSLOTS OK\n"
+     | _ -> pr "MSLOTS PANIC\n");
+    (* the i64 guard of the flow network (FlowGuard.v) for the distributed slots of every type *)
+    (match distribute nw with
+     | Ok a -> List.iter (fun ty -> match slots_of a ty with
+                 | Ok sl -> pr "MGUARD %s %s\n" (zs ty) (match cost_guard nw ty sl with Ok _ -> "OK" | _ -> "PANIC")
+                 | _ -> ()) (type_ids nw)
+     | _ -> ());
     while not (eof st) do
       match next st with
       | "MCFTYPE" ->
